@@ -213,7 +213,7 @@ def finish(prop_id, tier, seed, level, acc, rule, assumptions, t0, extra_cov=Non
     if new:
         return 1
     if acc.inconclusive:
-        for r in acc.inconclusive[:3]:
-            print("INCONCLUSIVE property=%s reason=%s" % (prop_id, str(r)[-700:]))
+        for r in acc.inconclusive[:2]:
+            print("INCONCLUSIVE property=%s reason=%s" % (prop_id, " ".join(str(r)[-400:].split())))
         return 2
     return 0
